@@ -4,23 +4,24 @@ copies a confirmed seeded change from /tmp/mut-<worktree-id>/_out/<mN> into /ver
 import json, os, shutil, sys, re
 wt, m, sid, needs, det = sys.argv[1:6]
 note = sys.argv[6] if len(sys.argv) > 6 else None
-src = "/tmp/mut-%s/_out/%s" % (wt, m)
+root = os.environ.get("MUTROOT", "/tmp/mut")
+src = "%s-%s/_out/%s" % (root, wt, m)
 dst = "/verif/seeded/%s" % sid
 os.makedirs(dst, exist_ok=True)
 for f in ("patch.diff", "demo.diff", "notes.md"):
     shutil.copy(os.path.join(src, f), os.path.join(dst, f))
 prop = re.match(r"C\d\d", sid).group(0)
 conf = ""
-for log in ("/tmp/seedconfirm_batch2.log", "/tmp/seedconfirm_batch3.log", "/tmp/seedconfirm.log"):
+for log in ("/tmp/seedconfirm_batch2.log", "/tmp/seedconfirm_batch3.log", "/tmp/seedconfirm.log", os.environ.get("CONFLOG", "/nonexistent")):
     if os.path.exists(log):
         for l in open(log):
             if l.startswith("%s/%s " % (wt, m)):
                 conf = l.strip()
 meta = {
     "id": sid, "property": prop, "needs": needs,
-    "produced_by": "fresh sub-agent given only the property text and a scratch worktree",
+    "produced_by": os.environ.get("PRODUCED_BY", "fresh sub-agent given only the property text and a scratch worktree"),
     "confirmed": {
-        "how": "in the scratch worktree /tmp/mut-%s (at /repo's HEAD): (1) demo.diff on unchanged tree: cargo test --offline; (2) patch.diff alone: cargo test --offline (existing suite); (3) patch+demo: cargo test --offline" % wt,
+        "how": "in the scratch worktree %s-%s (at /repo's HEAD): (1) demo.diff on unchanged tree: cargo test --offline; (2) patch.diff alone: cargo test --offline (existing suite); (3) patch+demo: cargo test --offline" % (root, wt),
         "result": conf,
         "note": "beacon::encode_decode_cmd and crypto::core::tests::test_speed_* are timing-sensitive and fail under machine load (several cargo builds ran in parallel); unrelated to the change, they pass alone",
     },
